@@ -783,7 +783,7 @@ Section Roundtrip.
     - apply andb_true_iff in Hw. destruct Hw as [_ Hw]. apply list_eqb_refl; auto.
     - apply andb_true_iff in Hw. destruct Hw as [Hw Hn]. apply andb_true_iff in Hw. destruct Hw as [_ Hw].
       apply sub_map_refl; auto.
-    - destruct p; simpl; auto. apply list_str_eqb_refl.
+    - destruct p; simpl; auto. rewrite list_str_eqb_refl; reflexivity.
     - apply andb_true_iff in Hw. destruct Hw as [Hw Hn]. apply andb_true_iff in Hw. destruct Hw as [_ Hw].
       apply sub_map_refl; auto.
   Qed.
